@@ -448,6 +448,27 @@ fn exec_c<C: Suite>(scen: &Scenario) -> Exec {
         if rec.total() < 16 * items {
             return Exec::Violation(Violation::new("C16", "C16.too_few_draws", format!("batch verify of {items} items drew {} bytes ({} requests) from the random source: fewer than 128 bits per item, i.e. not a blinder per item", rec.total(), rec.draws.len())), rep);
         }
+        // every item has a blinder of its own, the first one included: a batch of k items consumes at least 16 bytes more than a
+        // batch of k-1 items (k = 1: at least 16 bytes at all)
+        let mut prev = 0usize;
+        for k in 1..=items {
+            let mut r = SimRng::good(stream(scen.seed, scen.run, "c16/batch"));
+            let mut v = frost::batch::Verifier::<C>::new();
+            for (m, s) in sigs.iter().take(k) {
+                v.queue(frost::batch::Item::<C>::new(vk, *s, m).unwrap());
+            }
+            rep.evaluations += 1;
+            if v.verify(&mut r).is_err() {
+                return Exec::Violation(Violation::new("C16", "C16.control_failed", format!("valid batch of {k} rejected")), rep);
+            }
+            if r.total() < prev + 16 {
+                return Exec::Violation(
+                    Violation::new("C16", "C16.too_few_draws", format!("batch verify of {k} item(s) drew {} bytes, of {} item(s) {prev} bytes: the added item has no blinder of its own drawn from the source", r.total(), k - 1)),
+                    rep,
+                );
+            }
+            prev = r.total();
+        }
         let mut again = SimRng::replay(rec.out.clone(), stream(scen.seed, scen.run, "c16/fallback"));
         if !verify(&mut again) || again.total() != rec.total() {
             return Exec::Violation(Violation::new("C16", "C16.not_reproducible", "batch verify: replay differs".to_string()), rep);
